@@ -17,13 +17,14 @@ namespace HsVerif.Props.C05
 open HsVerif.Model HsVerif.Proofs
 
 /-- **(1) Synchronizer progress.**  If `verifySyncInfo` accepts `si` in state `s` with certified
-view `w` and `w` is at least the current view, `advanceView` ends in view `s.view + 1`. -/
+view `w` and `w` is at least the current view, `advanceView` ends in view `w + 1` — the view after the
+certificate's (`EnterViewAfter`), which is at least `s.view + 1` (RESTATED: was `s.view + 1`). -/
 theorem view_moves_on_accepted_certificate (k : Keys) (c : RCfg) (si : SyncInfo) (s : RState) (w : Nat)
     (ha : Accepts k c si s w) (hw : s.view ≤ w) :
-    ((advanceView k c si).run s).2.view = s.view + 1 := by
+    ((advanceView k c si).run s).2.view = w + 1 ∧ s.view + 1 ≤ ((advanceView k c si).run s).2.view := by
   have := run_res_of_triple (advanceView k c si) (fun s' => s'.view = s.view ∧ Accepts k c si s' w)
-    (fun _ s' => s'.view = s.view + 1) (advanceView_progress k c si s.view w hw) s ⟨rfl, ha⟩
-  exact this
+    (fun _ s' => s'.view = w + 1) (advanceView_progress k c si s.view w hw) s ⟨rfl, ha⟩
+  exact ⟨this, by rw [this]; omega⟩
 
 /-- **(2) A quorum of timeouts of one view yields the certificate material** (restating C08's
 `collector_exact`): the message that completes `q` messages of its view makes the collector hand
